@@ -61,6 +61,13 @@ func runC06(c *Ctx) {
 	checkGuards(r, p, "lock/guarded-by", []GuardRow{{
 		Pkg: pkg, Type: "TypedValue", Mutex: "mutex", Fields: []string{"valueCached", "hasCached"},
 		CH: map[string]LockMode{"cachedValue": ModeR},
+	}, {
+		// every access of the raw key happens inside the exclusive section in which the cache is (or may
+		// be) updated from it: a value read outside the lock can be installed in the cache after a later
+		// Delete/Set has completed. Handing the store itself out (KVStore()) needs no lock.
+		Pkg: pkg, Type: "TypedValue", Mutex: "mutex", Fields: []string{"kv"},
+		Mutators: map[string][]string{"kv": {"Get", "Has", "Set", "Delete"}},
+		ReadsOK:  map[string]string{"kv": "the field is immutable; only operations on the raw key are ordered by the mutex"},
 	}})
 	checkLockBalance(r, p, "lock/balance", []string{pkg}, nil, func(k string) bool {
 		return hasPrefixAny(k, "kvstore.TypedValue.", "kvstore.TypedStore.")
